@@ -33,6 +33,19 @@ CLAIMS = {
     design_ref="DESIGN.md §6 C11",
     technique="Lean 4 proof (controller reuse as a permutation invariant) + differential correspondence + shadow-world transparency Spec on implementation traces",
     note=NOTE_COMMON + " Rule sets are HashSets hashed with the id: the order in which rules are processed is taken from the implementation's observations, and a rule given under two ids may be held once or twice."),
+ "C12": dict(
+    category="proof",
+    text=("Proved in Lean: the five validity checks stated outright (flow_valid_iff, br_valid_iff, hs_valid_iff, iso_valid_iff, sys_valid_iff: accepted iff each clause holds; NaN is accepted), and "
+          "for every operation between 'accepted' and 'enforced' that can panic in Rust (modelled as Except Panic): br_counter_constructible (every accepted breaker rule has a constructible "
+          "counter window), throttling_new_total (the two try_into().unwrap() for all u32 ms values), cold_eff_ge_two and warmup_tokens_total (warm-up token arithmetic for any saturated casts), "
+          "arg_index_total (args[idx] never out of bounds for any index and list; argAt_eq_model ties it to the hotspot model), assoc_node_total, conc_counter_total, and the poisoning layer "
+          "(no_panic_no_poison, later_calls_work by induction over any call sequence, panic_poisons). Tie: is_valid() of all five families is compared with the model on the exhaustive enum cross "
+          "product x boundary grids; the no-panic/no-hang/still-healthy Spec is evaluated on the real code in one child process per case (catch_unwind, 10 s limit, health probe of all five managers). "
+          "Floating-point steps inside the checkers have no panic site (casts saturate) and are covered by the grid only."),
+    design_ref="DESIGN.md §6 C12",
+    technique="Lean 4 proof (validity decision logic; totality of the Except-modelled panic sites; poisoning induction) + exhaustive-enum differential validation + no-panic Spec in child processes",
+    note=NOTE_COMMON + " Built with overflow checks on (dev profile). Found and fixed with this check: D5 (Associated flow rule panicked at check, c7e8a84), D12 (hotspot in-flight counter wrapped, 8944323), "
+         "D13 (warm-up token arithmetic overflowed under both flow locks for u32::MAX cold factor / saturating thresholds, 74e7dc6); D4 (append of an invalid rule poisoned RULE_MAP) was fixed under C10."),
  "C08": dict(
     category="translation_validation",
     text=("PARTIAL. Proved in Lean: structural theorems about the executable warm-up calculator for every state/threshold/clock (sync_stored_le_max, sync_once_per_second, sync_idempotent, "
